@@ -222,10 +222,19 @@ def size_includes_carry(c):
     c.replay("code", code=REPLAY_NAMESPACE)
 
 
-@contract(CTX + ".copy", prop="C07", name="copy[carries-namespace-size]")
-def copy_carry(c):
+def _copy_carry(nested):
+    contract(CTX + ".copy", prop="C07", name="copy[carries-namespace-size" + (", from a context that is itself a copy]" if nested else "]"))(lambda c: copy_carry(c, nested))
+
+
+def copy_carry(c, nested=False):
     env = mk_env(c)
-    ctx = mk_ctx(c, env)
+    if nested:
+        # the copying context is a partial's context: its own locals and carry differ from the root's
+        root = mk_ctx(c, env)
+        ctx = mk_ctx(c, env, parent_context=root, locals=c.dict("partial_locals"), counters=c.dict("counters2"), loops=c.list("loops2"),
+                     local_namespace_size_carry=c.int("partial_carry"), loop_iteration_carry=c.int("partial_loop_carry"))
+    else:
+        ctx = mk_ctx(c, env)
     ns = c.dict("namespace")
     bs = c.bool("block_scope")
     c.call(ns, self_val=ctx, block_scope=bs, carry_loop_iterations=c.bool("carry_loops"))
@@ -245,6 +254,10 @@ def copy_carry(c):
     c.ensures("copy-carries-the-callers-measured-size", post)
     c.raises("ContextDepthError")
     c.replay("code", code=REPLAY_NAMESPACE)
+
+
+for _nested in (False, True):
+    _copy_carry(_nested)
 
 
 not_covered("C07", "sys.getsizeof as a measure of memory (uninterpreted, non-negative)", "a user-overridden get_size_of_locals",
